@@ -47,13 +47,11 @@ impl IsSubset for Value {
                     optional: true,
                 } => r#type.is_subset(ty),
                 Self::OneOf { variants, optional } => {
-                    variants.contains(&Self::Array {
-                        r#type: r#type.clone(),
-                        optional: true,
-                    }) || (*optional || variants.contains(&Self::Null))
-                        && variants
-                            .iter()
-                            .any(|var| self.clone().as_non_optional().is_subset(var))
+                    let null_ok = *optional || variants.contains(&Self::Null);
+                    let non_optional = self.clone().as_non_optional();
+                    variants
+                        .iter()
+                        .any(|var| (null_ok || var.is_optional()) && non_optional.is_subset(var))
                 }
                 _ => false,
             },
@@ -69,13 +67,11 @@ impl IsSubset for Value {
                         && elements.len() == other.len()
                 }
                 Self::OneOf { variants, optional } => {
-                    variants.contains(&Self::Tuple {
-                        elements: elements.clone(),
-                        optional: true,
-                    }) || (*optional || variants.contains(&Self::Null))
-                        && variants
-                            .iter()
-                            .any(|var| self.clone().as_non_optional().is_subset(var))
+                    let null_ok = *optional || variants.contains(&Self::Null);
+                    let non_optional = self.clone().as_non_optional();
+                    variants
+                        .iter()
+                        .any(|var| (null_ok || var.is_optional()) && non_optional.is_subset(var))
                 }
                 Self::Array {
                     r#type,
@@ -106,14 +102,11 @@ impl IsSubset for Value {
                     })
                 }
                 Self::OneOf { variants, optional } => {
+                    let null_ok = *optional || variants.contains(&Self::Null);
+                    let non_optional = self.clone().as_non_optional();
                     variants
                         .iter()
-                        .filter(|var| matches!(var, Self::Object { .. }))
-                        .any(|var| self.is_subset(var))
-                        || (*optional || variants.contains(&Self::Null))
-                            && variants
-                                .iter()
-                                .any(|var| self.clone().as_non_optional().is_subset(var))
+                        .any(|var| (null_ok || var.is_optional()) && non_optional.is_subset(var))
                 }
                 _ => false,
             },
